@@ -199,6 +199,8 @@ const (
 	ErrEndifWithoutMatchingIf Error = "$endif without matching $if"
 	// ErrUnknownModifier is the unknown modifier error.
 	ErrUnknownModifier Error = "unknown modifier"
+	// ErrRecursiveInclude is the recursive $include error.
+	ErrRecursiveInclude Error = "recursive $include"
 )
 
 // Error satisfies the error interface.
